@@ -428,6 +428,18 @@ fn run(ctx: &mut Ctx) {
         };
         let via_cli = i % 12 == 11;
         check(ctx, &case, &mlog, via_cli);
+        if i % 50 == 3 {
+            // sources whose names are not valid UTF-8, reached by directory scans
+            let (findings, cj) = crate::props::rawnames::scenario(ctx, &mut r);
+            for f in findings.iter().filter(|f| f.class == "naming") {
+                ctx.violation(format!("C11:non-utf8-name:{}", f.mode), f.msg.clone(), cj.clone());
+            }
+            if findings.iter().any(|f| f.class == "touched" && f.msg.contains("was created")) {
+                let f = findings.iter().find(|f| f.class == "touched" && f.msg.contains("was created")).unwrap();
+                ctx.violation("C11:output-at-wrong-path", f.msg.clone(), cj.clone());
+            }
+            ctx.distinct.insert(crate::util::hash_str(&format!("raw{i}{}", cj)));
+        }
         if i == 0 {
             ctx.sample(|| json!({"tree": files.keys().cloned().collect::<Vec<_>>(), "inputs": case.inputs, "recursive": case.recursive, "cwd_kind": case.cwd_kind, "mode": crate::run::mode_name(&case.mode)}));
         }
@@ -435,6 +447,21 @@ fn run(ctx: &mut Ctx) {
 }
 
 fn replay(ctx: &mut Ctx, v: &Value) {
+    if v["kind"].as_str() == Some("raw-names") {
+        let mut r = StdRng::seed_from_u64(3);
+        for _ in 0..10 {
+            let (findings, cj) = crate::props::rawnames::scenario(ctx, &mut r);
+            for f in findings.iter() {
+                println!("  [{}:{}] {}", f.class, f.mode, f.msg);
+                if f.class == "naming" {
+                    ctx.violation(format!("C11:non-utf8-name:{}", f.mode), f.msg.clone(), cj.clone());
+                } else if f.msg.contains("was created") {
+                    ctx.violation("C11:output-at-wrong-path", f.msg.clone(), cj.clone());
+                }
+            }
+        }
+        return;
+    }
     let case = Case {
         symlinks: v["symlinks"].as_array().map(|a| a.iter().filter_map(|x| Some((x.get(0)?.as_str()?.to_string(), x.get(1)?.as_str()?.to_string(), x.get(2)?.as_str()?.to_string()))).collect()).unwrap_or_default(),
         files: files_from_json(&v["files"]),
